@@ -61,9 +61,9 @@ namespace sn = tlx::sort_networks;
 
 enum { BEST = 0, BN = 1, BNP = 2, NFAM = 3 };
 static const char* const FAM[NFAM] = {"best", "bose_nelson", "bose_nelson_parameter"};
-enum { ZO = 0, PERM = 1, K3 = 2 };
-static const char* const KIND[3] = {"zo", "perm", "k3"};
-static const char* const ORACLE[3] = {"zero-one", "permutations", "three-key"};
+enum { ZO = 0, PERM = 1, K3 = 2, K3S = 3 };
+static const char* const KIND[4] = {"zo", "perm", "k3", "k3s"};
+static const char* const ORACLE[4] = {"zero-one", "permutations", "three-key", "three-key-owning"};
 static const int MAXN = 16;
 
 // ------------------------------------------------------------------------------------------
@@ -211,11 +211,21 @@ static Seq g_ref[NFAM][4][MAXN + 1];
 struct KT {
     int key, tag;
 };
+// the same with a heap-owning std::string payload: its move assignment is not self-safe (libstdc++ leaves a
+// self-move-assigned string empty) and a moved-from payload is empty, so a compare-exchange that moves an element onto
+// itself or reads one after moving from it corrupts the record visibly (kind k3s)
+struct SKT {
+    int key, tag;
+    std::string payload;
+};
+static std::string payload_of(int key, int tag) { return vh::fmt("payload-%d-%d-xxxxxxxxxxxxxxxxxxxxxxxx", key, tag); }
 struct KeyLess {
-    bool operator()(const KT& a, const KT& b) const { return a.key < b.key; }
+    template <class T>
+    bool operator()(const T& a, const T& b) const { return a.key < b.key; }
 };
 struct KeyGreater {
-    bool operator()(const KT& a, const KT& b) const { return a.key > b.key; }
+    template <class T>
+    bool operator()(const T& a, const T& b) const { return a.key > b.key; }
 };
 
 // exact-size heap array: any access outside [0,n) by the network is an ASan report
@@ -247,7 +257,7 @@ static bool is_dispatch(int kind, int e) { return kind == ZO ? e >= 2 : e == 1; 
 
 static uint64_t input_count(int kind, int n) {
     uint64_t c = 1;
-    for (int i = 1; i <= n; ++i) c *= (kind == ZO ? 2 : kind == PERM ? (uint64_t)i : 3);
+    for (int i = 1; i <= n; ++i) c *= (kind == ZO ? 2 : kind == PERM ? (uint64_t)i : 3);  // K3 and K3S: 3^n
     return c;
 }
 
@@ -266,11 +276,11 @@ static void build_blocks(int zo_max, int perm_max, int k3_max) {
     for (int fam = 0; fam < NFAM; ++fam)
         for (int e = 0; e < 4; ++e)
             for (int n = (e >= 2 ? 0 : 2); n <= zo_max; ++n) add_block(ZO, fam, e, 0, n);
-    for (int kind = PERM; kind <= K3; ++kind)
+    for (int kind = PERM; kind <= K3S; ++kind)
         for (int fam = 0; fam < NFAM; ++fam)
             for (int e = 0; e < 2; ++e)
                 for (int c = 0; c < 2; ++c)
-                    for (int n = (e == 1 ? 0 : 2); n <= (kind == PERM ? perm_max : k3_max); ++n)
+                    for (int n = (e == 1 ? 0 : 2); n <= (kind == PERM ? perm_max : kind == K3 ? k3_max : std::min(k3_max, 8)); ++n)
                         add_block(kind, fam, e, c, n);
 }
 
@@ -455,6 +465,7 @@ static void zo_case(const Block& b, uint64_t input) {
 // ------------------------------------------------------------------------------------------
 // direct cases: permutations / three keys, (key,tag) elements
 
+template <class KT>
 static void fill_perm(KT* a, int n, uint64_t input) {
     // factorial number system: digit i in [0, n-i) selects among the remaining keys
     int rest[MAXN];
@@ -468,21 +479,34 @@ static void fill_perm(KT* a, int n, uint64_t input) {
         for (int j = d; j + 1 < m; ++j) rest[j] = rest[j + 1];
     }
 }
-static void fill_k3(KT* a, int n, uint64_t input) {
+template <class T>
+static void fill_k3(T* a, int n, uint64_t input) {
     for (int i = 0; i < n; ++i) {
         a[i].key = (int)(input % 3);
         a[i].tag = i;
         input /= 3;
     }
 }
+static void set_payload(KT*, int) {}
+static void set_payload(SKT* a, int n) {
+    for (int i = 0; i < n; ++i) a[i].payload = payload_of(a[i].key, a[i].tag);
+}
+static bool payload_ok(const KT&) { return true; }
+static bool payload_ok(const SKT& e) { return e.payload == payload_of(e.key, e.tag); }
+static std::string kt_str(const SKT* a, int n) {
+    std::string s;
+    for (int i = 0; i < n; ++i) s += vh::fmt("%s%d.%d%s", i ? " " : "", a[i].key, a[i].tag, payload_ok(a[i]) ? "" : "(payload lost)");
+    return s;
+}
 
-template <class Cmp>
-static void kt_call(const Block& b, KT* a, Cmp cmp) {
+template <class T, class Cmp>
+static void kt_call(const Block& b, T* a, Cmp cmp) {
     if (b.e == 0) direct(b.fam, b.n, a, sn::CS_IfSwap<Cmp>(cmp));
     else dispatch(b.fam, a, a + b.n, cmp);
 }
 
-static void kt_case(const Block& b, uint64_t input) {
+template <class KT>
+static void kt_case_t(const Block& b, uint64_t input) {
     const int n = b.n;
     std::string oob_what;
     const bool oob = block_oob(b, &oob_what);
@@ -491,6 +515,7 @@ static void kt_case(const Block& b, uint64_t input) {
     KT* a = arr.p;
     if (b.kind == PERM) fill_perm(a, n, input);
     else fill_k3(a, n, input);
+    set_payload(a, n);
     KT in[MAXN + 1];
     bool sorted_in = true;
     for (int i = 0; i < n; ++i) {
@@ -510,7 +535,7 @@ static void kt_case(const Block& b, uint64_t input) {
     unsigned seen = 0;
     for (int i = 0; i < n; ++i) {
         int t = a[i].tag;
-        if (t < 0 || t >= n || (seen >> t & 1) || in[t].key != a[i].key) ok = false;
+        if (t < 0 || t >= n || (seen >> t & 1) || in[t].key != a[i].key || !payload_ok(a[i])) ok = false;
         else seen |= 1u << t;
     }
     if (!ok)
@@ -520,6 +545,10 @@ static void kt_case(const Block& b, uint64_t input) {
                          kt_str(in, n).c_str(), kt_str(a, n).c_str()));
     add(b.kind == PERM ? S_perm : S_k3);
     if (!sorted_in) add(S_nontrivial);
+}
+static void kt_case(const Block& b, uint64_t input) {
+    if (b.kind == K3S) kt_case_t<SKT>(b, input);
+    else kt_case_t<KT>(b, input);
 }
 
 static void run_block_case(const Block& b, uint64_t input) {
